@@ -250,3 +250,8 @@ def sym_len(x):
     if isinstance(x, SymRope):
         return x.sym_len()
     return builtins.len(x)
+
+
+# a rope counts as bytes for shadowed isinstance() checks
+from . import values as _V  # noqa: E402
+_V._TYPEMAP[builtins.bytes] = _V._TYPEMAP[builtins.bytes] + (SymRope,)
